@@ -27,6 +27,18 @@ Import ListNotations.
 Definition C04_parser_full_statement (parse : bytes -> node) : Prop :=
   forall input, structurally_valid (parse input) = true.
 
+(* what is proved of it: the six clauses reduce to four (lists and leaves follow from the validator) *)
+Theorem C04_parser_partial : forall parse : bytes -> node,
+  (forall input, valid (parse input) && s2 (parse input) && headings_ok (parse input) && tables_ok (parse input) = true) ->
+  C04_parser_full_statement parse.
+Proof. exact parser_partial. Qed.
+Print Assumptions C04_parser_partial.
+
+Theorem C04_structurally_valid_reduced : forall t,
+  structurally_valid t = (valid t && s2 t && headings_ok t && tables_ok t).
+Proof. exact structurally_valid_reduced. Qed.
+Print Assumptions C04_structurally_valid_reduced.
+
 (* ---- the validator *)
 Theorem C04_valid_meaning : forall v sp ch,
   valid (Node v sp ch) = true <->
@@ -56,7 +68,7 @@ Proof. exact valid_leaves. Qed.
 Print Assumptions C04_valid_leaves.
 
 Theorem C04_valid_leaves_ok : forall t, valid t = true -> leaves_ok t = true /\ literal_leaves t = true.
-Proof. intros t H. split; [|apply leaves_ok_literal]; apply valid_leaves_b; exact H. Qed.
+Proof. exact valid_leaves_both. Qed.
 Print Assumptions C04_valid_leaves_ok.
 
 Theorem C04_valid_table_kinds : forall t, valid t = true ->
